@@ -1,4 +1,6 @@
 import astload
+import protocol
+import lemma
 from core import Fn, Target
 from cxx2c import unwrap, Unsupported, qual
 
@@ -93,6 +95,17 @@ def build(tier):
     a3 = lambda: fn('bundle_append3', 'append', select=nparams(3))
     mv = lambda: fn('bundle_moveto', 'moveto')
     acc = ['bundle_capacity', 'bundle_size']
+    # constructor / stopping tests: the state is seen as (point, gradient, value); smeared_e() / smeared_s() are ghosts
+    ckw = dict(COMMON)
+    ckw['types'] = TYPES + [(r'^nano::solver_state_t$', 'struct nv_cstate')]
+    ckw['members'] = [(r'^x\|nano::solver_state_t', 'nv_cstate_x'), (r'^gx\|nano::solver_state_t', 'nv_cstate_gx'), (r'^fx\|nano::solver_state_t', 'nv_cstate_fx'),
+                      (r'^smeared_e\|', 'nv_smeared_e'), (r'^lpNorm\|', 'nv_smeared_s_norm()')] + COMMON['members']
+    ckw['calls'] = [(r'^ctor\|nano::matrix_t\|void \(long, long\)|^ctor\|.*tensor_vector_storage_t, double, 2.*\|void \(long, long\)', 'nv_mat_make({0}, {1})'),
+                    (r'^ctor\|(nano::vector_t|.*tensor_vector_storage_t, double, 1[^|]*)\|void \(long\)', 'nv_t1d_make({0})'),
+                    (r'^ctor\|.*tensor_c(map|array)_storage_t, double, 1', 'nv_slice_of({&0})'), (r'^sqrt\|', 'nv_usqrt({0})')] + COMMON['calls']
+    ctor = Fn('bundle_ctor', SRC, 'bundle_t', flt='bundle_t::bundle_t', kinds=('CXXConstructorDecl',), **ckw)
+    econv = Fn('bundle_econverged', SRC, 'econverged', flt='bundle_t::econverged', **ckw)
+    sconv = Fn('bundle_sconverged', SRC, 'sconverged', flt='bundle_t::sconverged', **ckw)
     targets = [
         Target('bundle_capacity', [cap()], H), Target('bundle_size', [size()], H),
         Target('bundle_delete_inactive', [di(), size(), cap()], H, replace=acc),
@@ -102,13 +115,23 @@ def build(tier):
         Target('bundle_append4', [a4(), di(), dl(), size(), cap()], H, replace=acc + ['bundle_delete_inactive', 'bundle_delete_largest']),
         Target('bundle_append3', [a3(), a4()], H, replace=['bundle_append4']),
         Target('bundle_moveto', [mv(), a4()], H, replace=['bundle_append4']),
-    ]
+        Target('bundle_ctor', [ctor, a4()], H, replace=['bundle_append4']),
+        Target('bundle_econverged', [econv, size(), cap()], H, replace=acc), Target('bundle_sconverged', [sconv, size(), cap()], H, replace=acc),
+    ] + protocol.targets(['NV_C03']) + [protocol.ellipsoid()]
     return {
-        'targets': targets, 'vcs': [],
-        'decided': ['bundle_t representation invariant 0 < m_size < capacity() after append / moveto (and from m_size >= 0, as the constructor uses append); every index written into m_bundleE / m_bundleS / m_alphas lies in [0, capacity()); delete_largest reads m_alphas inside [0, size()) and a full bundle loses at least `count` entries'],
-        'not_decided': ['the certificate f(x)-f* <= 2 eps sqrt(n)(1+|x-x*|): follows from the cutting-plane model being a lower bound, a convex-analysis argument about values', 'ellipsoid always converges', 'stop-test protocol of csearch/rqb/fpba (T2)'],
-        'assumptions': ['cardinality lemma for std::nth_element + nano::remove_if (entries at or after the partition point are >= any element at or before it), stated in specs/C03/bundle.h',
-                        'contents of m_bundleS, smeared_e/smeared_s and the QP solve are erased'],
+        'targets': targets, 'vcs': [], 'bounded': [lemma.target()],
+        'decided': ['bundle_t representation invariant 0 < m_size < capacity() after append / moveto (and from m_size >= 0, as the constructor uses append); every index written into m_bundleE / m_bundleS / m_alphas lies in [0, capacity()); delete_largest reads m_alphas inside [0, size()) and a full bundle loses at least `count` entries',
+                    'bundle_t constructor: capacity() = max_size + 1 >= 3 slots in all three buffers (the shape NV_BUNDLE_SHAPE every other contract assumes), centre copied from the state, invariant established by the first append',
+                    'econverged / sconverged: smeared_e <= epsilon * sqrt(dimension of x), |smeared_s|_2 <= epsilon * sqrt(dimension of x) (the formula of the property; sqrt uninterpreted)',
+                    'csearch_t::search: the returned (y, gy, fy) is one evaluation; converged => both stopping tests were evaluated true with the caller\'s epsilon on the bundle version returned by its last solve; non-finite fy => failed; a status that makes a claim about the returned point was decided in this call after the last evaluation (pins the repair 778c4d3); the proximity centre is not moved; at most one evaluation beyond max_evals',
+                    'rqb / fpba1,2 do_minimize: converged => the curve search decided converged for the final bundle; rqb: the returned state is the bundle\'s proximity centre; fpba: the returned (best) value is not above a finite centre value',
+                    'ellipsoid: converged => g\'Hg < machine epsilon was computed after the last evaluation, or sqrt(g\'Hg) < epsilon was evaluated after the last evaluation on that iteration\'s g\'Hg'],
+        'not_decided': ['the certificate f(x)-f* <= 2 eps sqrt(n)(1+|x-x*|): follows from the cutting-plane model being a lower bound, a convex-analysis argument about values', 'ellipsoid always converges',
+                        'the deep-cut ellipsoid update, the linearisation errors, aggregation, the QP solve, the proximity parameter: erased numerics'],
+        'assumptions': ['cardinality lemma for std::nth_element + nano::remove_if (entries at or after the partition point are >= any element at or before it), stated in specs/C03/bundle.h; checked on the real nano::remove_if for capacities <= 5 by the bounded target lemma_remove_if_cardinality_bounded',
+                        'contents of m_bundleS, smeared_e/smeared_s and the QP solve are erased',
+                        'protocol view of bundle_t (specs/C03/protocol.h nv_pb_*): solve / append / moveto change the bundle version, moveto stores (y, gy, fy) as the centre, econverged / sconverged are functions of the current bundle and epsilon (transcribed from specs/C03/bundle.h and src/solver/bundle.cpp)',
+                        'vector identities and the deterministic-function prophecy of specs/C02/nonls.h'],
         'trusted': [],
     }
 
